@@ -157,6 +157,11 @@ Definition set_mark (it : item) : item :=
 Definition clr_mark (it : item) : item :=
   mkItem (clrflag (iflags it) MARK_BIT) (isize it) (ifin it) (iwords it) (idecl it).
 
+(* "if not hasflag(item.flags, GCFlags.LEAF) and item.size >= #@usize then push the range":
+   [noscan] is the negation of that test (the size test is there iff SCAN_SIZE_TEST) *)
+Definition noscan (it : item) : bool :=
+  hasflag (iflags it) LEAF_BIT || (SCAN_SIZE_TEST && (isize it <? WORD_SIZE)).
+
 (* the inner for loop over one scan range; newly found ranges are pushed on [pend] *)
 Fixpoint scan_words (o a : Z) (ws : list Z) (its : list (Z * item)) (pend : list (list Z))
   : list (Z * item) * list (list Z) :=
@@ -169,7 +174,7 @@ Fixpoint scan_words (o a : Z) (ws : list Z) (its : list (Z * item)) (pend : list
             if marked it then scan_words o a r its pend
             else
               let its' := update w (set_mark it) its in
-              if hasflag (iflags it) LEAF_BIT then scan_words o a r its' pend
+              if noscan it then scan_words o a r its' pend
               else scan_words o a r its' (iwords it :: pend)
         | None => scan_words o a r its pend
         end
@@ -274,13 +279,18 @@ Definition step_due (g : gc) : bool :=
 Definition step (stk : list Z) (g : gc) : gc := if step_due g then collect stk g else g.
 
 (* ---------- GC:register ---------- *)
+(* flags of a usual item: LEAF forced for blocks smaller than a pointer iff the code still does
+   that at registration (AUTO_LEAF_ON_REGISTER), FINALIZE iff a finalizer is given *)
+Definition reg_flags (flags size : Z) (f : option fin) : Z :=
+  let fl := if AUTO_LEAF_ON_REGISTER && (size <? WORD_SIZE) then setflag flags LEAF_BIT else flags in
+  match f with Some _ => setflag fl FINALIZE_BIT | None => fl end.
+
 Definition register (stk : list Z) (ptr size flags : Z) (f : option fin) (ws : list Z) (decl : bool)
   (g : gc) : gc :=
   if ptr =? 0 then g else
   if size <=? 0 then set_err ErrSizeZero g else
   if negb (hasflag flags ROOT_BIT) then
-    let flags := if size <? WORD_SIZE then setflag flags LEAF_BIT else flags in
-    let flags := match f with Some _ => setflag flags FINALIZE_BIT | None => flags end in
+    let flags := reg_flags flags size f in
     match lookup ptr (items g) with
     | Some _ => set_err ErrRegisterTwice g
     | None =>
@@ -396,6 +406,11 @@ Definition fresh (ptr : Z) (g : gc) : bool :=
   match lookup ptr (items g) with Some _ => false | None => true end &&
   match lookup ptr (roots g) with Some _ => false | None => true end.
 
+(* an explicit dealloc of a block whose finalizer releases the block itself is a double free of
+   the mutator, not a history the property speaks about *)
+Definition dealloc_ok (it : item) : bool :=
+  match ifin it with Some f => negb ((fkind f =? 2) || (fkind f =? 3)) | None => true end.
+
 Definition apply_op (o : op) (g : gc) : gc :=
   match err g with
   | Some _ => g
@@ -426,7 +441,7 @@ Definition apply_op (o : op) (g : gc) : gc :=
         end
     | ODealloc ptr =>
         match lookup ptr (items g) with
-        | Some _ => gc_dealloc ptr g
+        | Some it => if dealloc_ok it then gc_dealloc ptr g else set_err ErrPrecond g
         | None => set_err ErrPrecond g
         end
     | OUnregister ptr =>
